@@ -202,8 +202,11 @@ def make_distance_matrix_from_adjacency_matrix(AG):
         if AG.nnz and not AG.data.all():
             AG = AG.copy()
             AG.eliminate_zeros()
-    elif not isinstance(AG, np.ndarray):
-        AG = np.asarray(AG)
+    else:
+        # scipy's dense Floyd-Warshall needs a C-contiguous array: a transposed or
+        # fancy-indexed float array (e.g. a relabelled A[p][:, p]) made it fail
+        # internally and return infinite distances
+        AG = np.ascontiguousarray(AG)
 
     # Compile distance matrix of the graph based on its shortest path
     # lengths.
